@@ -416,6 +416,19 @@ impl Adversary for Hostile {
         if self.count >= self.max || now_us >= plan.end_us {
             return;
         }
+        // optional warm-up: before `hostile_start_us` the peer only acknowledges the victim's frames
+        let start_us = plan.param("hostile_start_us", 0.0) as u64;
+        if now_us < start_us {
+            for (victim, from) in self.targets.clone() {
+                if victim == ep && self.rng.chance(0.5) {
+                    if let (Some((id, nonce)), Probe::Hc(h)) = (self.seen[victim].nonces.last().cloned(), probe) {
+                        let bytes = enc_ack(h.tx_frame_window_base_id, h.tx_packet_base_id, &[(id, 1, nonce as u8)]);
+                        out.push(TimedOp { t_us: now_us + self.rng.range(1_000, 300_000), rank: DELIVER_RANK_PUB, op: Op::Inject { to: victim, from, bytes, twin: false } });
+                    }
+                }
+            }
+            return;
+        }
         for (victim, from) in self.targets.clone() {
             if victim != ep || !self.rng.chance(self.rate) {
                 continue;
@@ -426,13 +439,26 @@ impl Adversary for Hostile {
             };
             let n = self.rng.range(1, self.burst_max);
             for _ in 0..n {
-                let bytes = if self.focus == 2 {
+                let bytes = if self.focus == 2 && plan.param("flood_with_acks", 0.0) != 0.0 && self.rng.chance(0.15) {
+                    // now and then a genuine-looking acknowledgement of the victim's own frames, so
+                    // that it holds an RTT estimate (and with it a burst allowance)
+                    match (self.seen[victim].nonces.last().cloned(), probe) {
+                        (Some((id, nonce)), Probe::Hc(h)) => enc_ack(h.tx_frame_window_base_id, h.tx_packet_base_id, &[(id, 1, nonce as u8)]),
+                        _ => enc_sync(None, None),
+                    }
+                } else if self.focus == 2 {
                     // acknowledgement-queue flood: every frame opens a new ack group
                     let base = self.seen[victim].rx_frame_base.unwrap_or(0);
                     let next = self.flood_next.entry(victim).or_insert(base);
                     let id = *next;
                     *next = next.wrapping_add(32);
-                    enc_data(id, false, &[])
+                    // every 64 frames the sender "catches up" the victim's frame window, so that
+                    // the flood never runs out of window while the groups it opened stay owed
+                    if (id.wrapping_sub(base) / 32) % 64 == 63 {
+                        enc_sync(Some(id), None)
+                    } else {
+                        enc_data(id, false, &[])
+                    }
                 } else if self.focus == 5 && self.rng.chance(0.95) {
                     // "singles behind a hole": complete one-fragment packets for consecutive ids,
                     // all ordered behind a packet that never comes, far beyond the advertised
